@@ -4,7 +4,8 @@ PROP = "C09"
 HARNESS = "c09_sm"
 RULE = ("state = event history replayed on a fresh QXmppClient connected over loopback TCP to a scripted XEP-0198 server (login: SASL "
         "ANONYMOUS, bind, <enable resume/>); events: send(m1..m3), send(presence), send(nonza), server ack h in {0,1,2,3,5,9}, "
-        "server <r/>, receive message/presence/iq-result/iq-get, connection drop, and after a drop: resumed with h in {0,1,2,3,5}, "
+        "server <r/>, receive message/presence/iq-result/iq-get, a tracked request (sendIq) and the response that completes it (quick: in "
+        "a second configuration of depth 5), connection drop, and after a drop: resumed with h in {0,1,2,3,5}, "
         "resume refused then new session with SM, new session without SM. After every step a reference model (numbered "
         "unacknowledged list, covered set, inbound counter) is compared with the wire (exact retransmission list and order, no "
         "covered stanza again, <a h/> and <resume h/> values) and with every send task (acknowledged iff covered, at most one "
@@ -17,12 +18,13 @@ ASSUME = ["at most 4 tracked stanzas in flight plus the client's own initial pre
 
 def run(tier):
     if tier == "thorough":
-        cfgs = [dict(name="classic", config={}, depth=9, dev=2, deadline=2400)]
+        cfgs = [dict(name="classic+tracked-iq", config={"iq": True}, depth=9, dev=2, deadline=2400)]
         return bfs_check(PROP, HARNESS, tier, cfgs, RULE, ASSUME, crosscheck_depth=3,
-                         witness_required=["retransmitted", "resumed", "new_session_with_sm", "acks_from_client", "drops"])
-    cfgs = [dict(name="classic", config={}, depth=7, dev=2, deadline=400)]
+                         witness_required=["retransmitted", "resumed", "new_session_with_sm", "acks_from_client", "drops", "tracked_iq_answered"])
+    cfgs = [dict(name="classic", config={"iq": False}, depth=7, dev=2, deadline=400),
+            dict(name="classic+tracked-iq", config={"iq": True}, depth=5, dev=2, deadline=200)]
     return bfs_check(PROP, HARNESS, tier, cfgs, RULE, ASSUME,
-                     witness_required=["retransmitted", "resumed", "new_session_with_sm", "acks_from_client", "drops"])
+                     witness_required=["retransmitted", "resumed", "new_session_with_sm", "acks_from_client", "drops", "tracked_iq_answered"])
 
 
 def replay(path):
